@@ -9,7 +9,7 @@ CLAIMED = {
         category="exploration",
         design_ref="DESIGN.md 3.5",
         technique="deterministic simulation: seeded search over delivery orders, duplications and merge trees of best_match reductions across replicas",
-        text="Seeded simulation of R replicas that reduce a candidate multiset with the real Pattern::best_match under scripted delivery order, duplicate/late deliveries and a scripted merge tree; per-step invariants (None iff neither matches, result is one of the arguments and matches, argument-order independence) an end-of-history convergence check against an independent max-under-order fold, and, for every pair in which both candidates match, an independent model of the dewey rule written from the property text (digit runs below 2^63 by value; '.', '_', pl = 0; alpha/beta/rc|pre = -3/-2/-1; other letters = 0 then alphabet rank; case-insensitive; ignored characters; nb<N> revision; zero padding) that fixes the winner, ties to the byte-wise smaller name. Sampling, not enumeration: a clean batch is evidence that the reduction is order-, grouping- and duplication-independent on the schedules explored.",
+        text="Seeded simulation of R replicas that reduce a candidate multiset with the real Pattern::best_match under scripted delivery order, duplicate/late deliveries and a scripted merge tree; per-step invariants (None iff neither matches, result is one of the arguments and matches, argument-order independence) an end-of-history convergence check against an independent max-under-order fold, and, for every pair in which both candidates match, an independent model of the dewey rule written from the property text (digit runs below 2^63 by value; '.', '_', pl = 0; alpha/beta/rc|pre = -3/-2/-1; other letters = 0 then alphabet rank; case-insensitive; ignored characters; nb<N> revision; zero padding) that fixes the winner, ties to the byte-wise smaller name; every matches() answer entering a merge step is compared with an independent matcher for the generated pattern shapes (dewey bounds with all four operators, one level of braces, globs, plain strings). Sampling, not enumeration: a clean batch is evidence that the reduction is order-, grouping- and duplication-independent on the schedules explored.",
         note="Claims the history clause of C06 (plus the per-pair clauses as invariants of the same runs). The end-of-history fold uses the version order the library itself exposes through single-bound patterns; the per-pair winner is checked against the independent dewey model, which declines on digit runs at or beyond i64::MAX, on an 'nb' not in lower case and on versions with pattern metacharacters. One known finding (a letter weighs its ASCII code instead of its alphabet rank; not repairable without editing the crate's own test) is listed in known_findings.json and printed as KNOWN-FINDING. C01's quantifier over all four operators and over matches() is not claimed.",
     ),
     "C07": dict(
@@ -95,7 +95,7 @@ def main():
             "engine": "pkgsim",
             "level_claimed": {
                 "category": c["category"],
-                "text": c["text"],
+                "text": c["text"] + " In every run the allocator seam meters the bytes the library calls allocate against the bytes they were given (deterministic work budget, violation work-budget-exceeded), next to the panic monitor, the seam-call budgets and the wall-clock hang watchdog.",
                 "design_ref": c["design_ref"],
             },
             "level_note": c["note"],
